@@ -122,6 +122,19 @@ def extend(pm, e):
     elif k == "add-interface-field":
         for tn in (e["type"], "Query", "Obj"):
             M.get_type(pm, tn)["fields"].append(dict(e["field"], args=[]))
+    elif k == "members":
+        for add in e["adds"]:
+            t = M.get_type(pm, add[0])
+            if len(add) == 3:
+                if add[1] == "implements":
+                    t["interfaces"] = list(t.get("interfaces") or ()) + [add[2]]
+                    t["fields"] = t["fields"] + [M.F("id", "ID!"), M.F("peer_node", "Node", [M.A("first_n", "Int", 1)])]
+                elif add[1] == "member":
+                    t["members"].append(add[2])
+                else:
+                    t["values"].append(M.V(add[2]))
+            else:
+                t["fields"].append(copy.deepcopy(add[1]))
     else:
         raise ValueError(k)
     return pm
